@@ -64,7 +64,13 @@ static int run_one(void) {
   if (setjmp(jb) == 0) verif_case();
   return 0;
 }
+#ifdef VERIF_TWIN
+void rt_global_ctors(void);
+#endif
 int main(int argc, char **argv) {
+#ifdef VERIF_TWIN
+  rt_global_ctors();   /* static initialisers of the translated unit (the real build runs its own before main) */
+#endif
   signal(SIGSEGV, on_crash); signal(SIGABRT, on_crash); signal(SIGFPE, on_crash); signal(SIGBUS, on_crash); signal(SIGILL, on_crash);
   if (argc >= 4 && !strcmp(argv[1], "--random")) {
     unsigned long long seed = strtoull(argv[2], 0, 10); long count = atol(argv[3]); long accepted = 0, tried = 0;
